@@ -20,7 +20,7 @@ impl<'a, V> GenericLibraryFactory<'a, V> {
         expect_library_name: &LibraryName,
         char_stream: impl Iterator<Item = char>,
     ) -> Result<Self, SchemeError> {
-        let lexer = Lexer::from_char_stream(char_stream);
+        let lexer = Lexer::from_char_stream(char_stream).without_locations();
         let parser = Parser::from_lexer(lexer);
         for statement in parser {
             if let Statement::LibraryDefinition(library_definition) = statement? {
